@@ -125,9 +125,7 @@ theorem raises_only_if_missing (c : Config ℝ) (d : Dict ℝ) (k : String)
       unfold jScaling at hg
       split at hg
       · cases hg
-      · split at hg
-        · cases hg
-        · split at hg <;> cases hg
+      · split at hg <;> cases hg
 
 /-! ## no configuration -/
 
@@ -159,12 +157,12 @@ theorem not_configured_ones (c : Config ℝ) (d : Dict ℝ) (hc : c.evaluate = f
 
 /-! ## between nodes: the multilinear interpolant -/
 
-/-- **inside the grid every bin is the multilinear interpolant of its grid** at the coordinates found
-    under the declared names (no error; one value per bin, any number of bins and axes). -/
-theorem between_nodes_multilinear (c : Config ℝ) (axes : List (List ℝ)) (grids : List (Grid ℝ))
+/-- every bin is the multilinear form of the cell `locate` selects on each axis, at the coordinates found under the
+    declared names — for ANY coordinates: inside the axes the bracketing cell (the interpolant), beyond them the
+    outermost cell (linear extrapolation, as both scipy interpolators are configured). -/
+theorem evaluates_everywhere (c : Config ℝ) (axes : List (List ℝ)) (grids : List (Grid ℝ))
     (names : List String) (hc : Configured c axes grids names) (d : Dict ℝ) (v : String → ℝ)
-    (hd : ∀ n ∈ names, d.get? n = some (v n))
-    (hin : InsideGrid (axes.zip (names.map v))) :
+    (hd : ∀ n ∈ names, d.get? n = some (v n)) :
     kinScaling c (some d) = .ok (grids.map (fun g => interp (axes.zip (names.map v)) g)) := by
   have hl := route_in_declared_order names d v hd
   have hne : (names.map v).isEmpty = false := by
@@ -180,12 +178,29 @@ theorem between_nodes_multilinear (c : Config ℝ) (axes : List (List ℝ)) (gri
     Option.getD_some, Bool.not_true, Bool.or_self, Bool.false_eq_true, if_false]
   apply mapE_ok
   intro g _
-  have hall : (axes.zip (names.map v)).all (fun p => inRange p.1 p.2) = true := by
-    rw [List.all_eq_true]
-    intro p hp
-    obtain ⟨_, hs, hi⟩ := hin p hp
-    exact inRange_of_inside hs hi
-  simp [jScaling, hne, hc.len, hall]
+  simp [jScaling, hne, hc.len]
+
+/-- **inside the grid every bin is the multilinear interpolant of its grid** at the coordinates found
+    under the declared names (no error; one value per bin, any number of bins and axes). -/
+theorem between_nodes_multilinear (c : Config ℝ) (axes : List (List ℝ)) (grids : List (Grid ℝ))
+    (names : List String) (hc : Configured c axes grids names) (d : Dict ℝ) (v : String → ℝ)
+    (hd : ∀ n ∈ names, d.get? n = some (v n))
+    (_hin : InsideGrid (axes.zip (names.map v))) :
+    kinScaling c (some d) = .ok (grids.map (fun g => interp (axes.zip (names.map v)) g)) :=
+  evaluates_everywhere c axes grids names hc d v hd
+
+/-- **no point raises**: with every declared name present the scaling is a value for ANY coordinates — also beyond the
+    tabulated axes (a slope drawn from its global population is not truncated to the grid): the only errors left are a
+    missing name and an inconsistent configuration (finding F22: the multi-axis interpolator used to refuse such points). -/
+theorem no_range_error (c : Config ℝ) (axes : List (List ℝ)) (grids : List (Grid ℝ))
+    (names : List String) (hc : Configured c axes grids names) (d : Dict ℝ)
+    (hd : ∀ n ∈ names, n ∈ keys d) :
+    ∃ r, kinScaling c (some d) = .ok r ∧ r.length = grids.length := by
+  refine ⟨_, evaluates_everywhere c axes grids names hc d (fun n => (d.get? n).getD 0) ?_, by simp⟩
+  intro n hn
+  cases hg : d.get? n with
+  | none => exact absurd (hd n hn) ((get?_eq_none_iff n).mp hg)
+  | some v => rfl
 
 /-- the cell and normalised distance used on one axis: for a strictly ascending axis with ≥ 2 nodes
     the index `i` addresses a cell (`i + 1` is a node), the distance is
